@@ -157,7 +157,7 @@ def _refs(args):
                     # the data changes between runs, so that "most recent run" is observable
                     rows = [list(fs.names)] + [[lang.FileSpec.cell(rng, kd) for kd in fs.kinds] for _ in range(rng.randint(1, 5))]
                     # rows may stop short, but never before the columns the generated assignments rely on
-                    rows = [rw if (j == 0 or rng.random() < 0.7) else rw[: rng.randint(fs.minlen, fs.ncols)] for j, rw in enumerate(rows)]
+                    rows = [rw if (j == 0 or rng.random() < 0.55) else rw[: rng.randint(fs.minlen, fs.ncols)] for j, rw in enumerate(rows)]
                     runner.write_csv("src/data.csv", rows)
                     cp.file_manager.add_named_file(name="data", path="src/data.csv")
                     last_records = rows
@@ -188,7 +188,8 @@ def _refs(args):
                     refs.append({"what": "variable", "name": name, "key": txt(key), "hname": [], "var": f"r{k}"})
                     k += 1
             if src_lines and not second:          # a header reference to a group of several members needs an identity
-                h = rng.choice(fs.names)
+                # a column that short rows may stop just before
+                h = rng.choice(fs.names[1:]) if (len(fs.names) > 1 and rng.random() < 0.8) else rng.choice(fs.names)
                 comps2.append(f"@r{k} = $g1.headers.{h}")
                 refs.append({"what": "header", "name": "", "key": [], "hname": txt(h), "var": f"r{k}"})
                 k += 1
@@ -260,7 +261,7 @@ def main(tier):
     if r0.invariant_violated:
         rep.violation({"kind": "spec", "invariant": r0.invariant_violated})
         return rep.finish()
-    nch, nref = (60, 40) if tier == "quick" else (1500, 800)
+    nch, nref = (80, 90) if tier == "quick" else (1500, 1200)
     outs = common.pmap(_chain, [(common.seed(), i) for i in range(nch)], initializer=scratch.enter_scratch, chunksize=2)
     outs += common.pmap(_refs, [(common.seed(), 100000 + i) for i in range(nref)], initializer=scratch.enter_scratch, chunksize=2)
     cases, traces, infos, oom, skipped = [], [], {}, 0, 0
